@@ -22,14 +22,53 @@ def _pass(seed, count, label):
         return vcheck.corr_pass(chk, MODE, lines, label, engine=sc.engine(MODE), oracle_filter=vcheck.tag_filter(TAGS), known_matcher=vcheck.known_by_hyp(chk, HYP))
     return p
 
+import json, subprocess, os
+
+def engine_prog(chk, lines):
+    """compiled validators: real compiler (Rust stage), emitted module + real schema()/schemaWithContext() (JS stage),
+    python jsonschema (oracle stage)"""
+    s1, rc, err = chk.run_impl("compile", lines)
+    s1 = s1 + ["(compiler-crash)\t(oracle ok)"] * (len(lines) - len(s1))
+    joined = [l + "\t" + vcheck.split_reply(r)[0] for l, r in zip(lines, s1)]
+    s2, rc2, err2 = chk.run_impl_js("prog-schema", joined)
+    s2 = s2 + ["(js-host-crash)\t(oracle-data \"{}\")"] * (len(lines) - len(s2))
+    datas, replies = [], []
+    for o in s2:
+        rep, od = vcheck.split_reply(o)
+        replies.append(rep)
+        try:
+            x = vcheck.sx_parse(od)
+            d = json.loads(json.loads('"' + x[1][1] + '"')) if x and x[0] == "oracle-data" else {}
+        except Exception:
+            d = {}
+        datas.append(json.dumps(d))
+    p = subprocess.run(["python3-vt", os.path.join(vcheck.VERIF, "tools", "schema_oracle.py")], input="\n".join(datas) + "\n", capture_output=True, text=True, timeout=3600)
+    tags = [l for l in p.stdout.split("\n") if l.strip()]
+    tags += ["(oracle fail oracle-crash)"] * (len(lines) - len(tags))
+    # requests without data (diagnostics, missing parser) are not judged
+    return [r + "\t" + (t if d != "{}" else "(oracle ok)") for r, t, d in zip(replies, tags, datas)]
+
+def _pass_prog(seed, count, label):
+    def p(chk):
+        chk.build_rust()
+        # `prog` requests under the head `pschema`: the Lean driver answers `untied` (schemas of compiled validators are judged
+        # by the oracle only; the Runtype-level passes carry the tie for schema printing) and evaluates the schema hypotheses
+        # on the validator its compiler model produces
+        lines = ["(pschema" + l[len("(prog"):] for l in chk.gen_js("prog", seed, count, 10)]
+        return vcheck.corr_pass(chk, "prog", lines, label, engine=engine_prog, oracle_filter=vcheck.tag_filter(TAGS),
+                                known_matcher=vcheck.known_by_hyp(chk, {**HYP, "ModelDoesNotCompile": "untied"}), view=lambda r: "(untied)",
+                                nontrivial=lambda r, i: i.startswith("(pschema flat ctx"))
+    return p
+
 def _corpus(chk):
     lines = vcheck.corpus_lines(PID)
     return vcheck.corr_pass(chk, MODE, lines, "schema(corpus)", engine=sc.engine(MODE), oracle_filter=vcheck.tag_filter(TAGS), known_matcher=vcheck.known_by_hyp(chk, HYP))
 
 def run(chk):
-    chk.build_js()
+    chk.build_js(); chk.build_rust()
     quick = chk.tier == "quick"
-    passes = [_corpus] + ([_pass(chk.seed * 100 + 11, 1500, "schema(random)")] if quick else [_pass(chk.seed * 100 + k, 8000, f"schema(random#{k})") for k in range(6)])
+    passes = [_corpus] + ([_pass(chk.seed * 100 + 11, 1500, "schema(random)"), _pass_prog(chk.seed * 100 + 12, 600, "compiled-schema(random)")] if quick else
+                          [_pass_prog(chk.seed * 100 + 20 + k, 6000, f"compiled-schema(random#{k})") for k in range(2)] + [_pass(chk.seed * 100 + k, 8000, f"schema(random#{k})") for k in range(6)])
     return vcheck.generic_run(chk, MODULES, AUDIT, passes,
         [PID + ": Model/{Schema,Hash}.lean model schema() of every class, SchemaPrintingContext, tryMergeAllOfObjectSchemas, removeNullUnionBranch, synthetic variant names (32-bit hash) by hand",
          PID + ": python jsonschema 4.x (Draft 2020-12) with the harness' custom formats is the judge of schema validity in the search; function types are excluded from the generators"],
